@@ -84,6 +84,20 @@ def src_root():
     return os.path.dirname(gstools.__file__)
 
 
+# thorough: a second, larger model per kernel (worksharing extent 4, others up to 3)
+MODEL_ARGS_BIG = {
+    "summate": lambda: dict(cov_samples=Z((2, 3)), z_1=Z(3), z_2=Z(3), pos=Z((2, 4))),
+    "summate_incompr": lambda: dict(cov_samples=Z((2, 2)), z_1=Z(2), z_2=Z(2), pos=Z((2, 4))),
+    "summate_fourier": lambda: dict(spectrum_factor=Z(3), modes=Z((2, 3)), z_1=Z(3), z_2=Z(3), pos=Z((2, 4))),
+    "calc_field_krige": lambda: dict(krig_mat=Z((3, 3)), krig_vecs=Z((3, 4)), cond=Z(3)),
+    "calc_field_krige_and_variance": lambda: dict(krig_mat=Z((2, 2)), krig_vecs=Z((2, 4)), cond=Z(2)),
+    "unstructured": lambda: dict(f=Z((1, 3)), bin_edges=Z(4), pos=Z((1, 3))),
+    "directional": lambda: dict(f=Z((1, 3)), bin_edges=Z(4), pos=Z((2, 3)), direction=Z((1, 2))),
+    "structured": lambda: dict(f=Z((5, 2))),
+    "ma_structured": lambda: dict(f=Z((5, 1)), mask=Z((5, 1), dtype=np.uint8)),
+}
+
+
 # ---------------------------------------------------------------------------
 # lattice inputs (records of Kernels.tla)
 
@@ -146,33 +160,39 @@ def _boxes(tier):
     mode = ("\\E k \\in [1..n -> [1..d -> QB]], z1 \\in [1..n -> ZB], z2 \\in [1..n -> ZB], "
             "x \\in [1..m -> [1..d -> XB]] :")
     shapes_s = "{<<1, 0, 1>>, <<1, 1, 0>>, <<1, 1, 1>>, <<1, 2, 2>>, <<2, 1, 1>>%s}" % (", <<2, 2, 1>>, <<3, 1, 1>>" if big else "")
+    shapes_f = "{<<1, 1, 1>>, <<1, 2, 1>>, <<2, 1, 1>>%s}" % (", <<2, 2, 1>>" if big else "")
     shapes_i = "{<<2, 1, 1>>, <<3, 1, 1>>%s}" % (", <<2, 2, 1>>" if big else "")
     return {
         "summate": (
-            "QB == {-1, 0, 1, 2}\nZB == {1, -2}\nXB == {-1, 0, 1, 3}\n"
+            "QB == {-1, 0, 1, 2}\nZB == {1, -2}\nXB == %s\n"
             "Box == \\E s \\in %s : LET d == s[1] n == s[2] m == s[3] IN %s\n"
-            "         inp = [kind |-> \"summate\", d |-> d, k |-> k, z1 |-> z1, z2 |-> z2, x |-> x]\n" % (shapes_s, mode)),
+            "         inp = [kind |-> \"summate\", d |-> d, k |-> k, z1 |-> z1, z2 |-> z2, x |-> x]\n"
+            % ("{-1, 0, 1, 3}" if big else "{-1, 0, 3}", shapes_s, mode)),
         "fourier": (
-            "QB == {-1, 0, 1, 2}\nZB == {1, -2}\nXB == {-1, 0, 2}\nSB == {0, 1, 3}\n"
-            "Box == \\E s \\in {<<1, 1, 1>>, <<1, 2, 1>>, <<2, 1, 1>>} : LET d == s[1] n == s[2] m == s[3] IN %s\n"
+            "QB == %s\nZB == {1, -2}\nXB == {-1, 0, 2}\nSB == %s\n"
+            "Box == \\E s \\in %s : LET d == s[1] n == s[2] m == s[3] IN %s\n"
             "         \\E sf \\in [1..n -> SB] :\n"
-            "         inp = [kind |-> \"fourier\", d |-> d, k |-> k, z1 |-> z1, z2 |-> z2, x |-> x, sf |-> sf]\n" % mode),
+            "         inp = [kind |-> \"fourier\", d |-> d, k |-> k, z1 |-> z1, z2 |-> z2, x |-> x, sf |-> sf]\n"
+            % ("{-1, 0, 1, 2}" if big else "{-1, 0, 2}", "{0, 1, 3}" if big else "{1, 3}", shapes_f, mode)),
         "incompr": (
-            "QB == {-2, -1, 0, 1, 2}\nZB == {0, 1, -2}\nXB == {-1, 0, 1}\n"
+            "QB == {-2, -1, 0, 1, 2}\nZB == %s\nXB == {-1, 0, 1}\n"
             "Box == \\E s \\in %s : LET d == s[1] n == s[2] m == s[3] IN\n"
-            "         \\E k \\in {kk \\in [1..n -> [1..d -> (IF d = 2 THEN QB ELSE {-1, 0, 1})]] : \\A j \\in 1..n : Norm2(kk[j]) # 0},\n"
+            "         \\E k \\in {kk \\in [1..n -> [1..d -> (IF d = 2 /\\ n = 1 THEN QB ELSE {-1, 0, 1})]] : \\A j \\in 1..n : Norm2(kk[j]) # 0},\n"
             "            z1 \\in [1..n -> ZB], z2 \\in [1..n -> ZB], x \\in [1..m -> [1..d -> (IF d = 2 THEN XB ELSE {0, 1})]] :\n"
-            "         inp = [kind |-> \"incompr\", d |-> d, k |-> k, z1 |-> z1, z2 |-> z2, x |-> x]\n" % shapes_i),
+            "         inp = [kind |-> \"incompr\", d |-> d, k |-> k, z1 |-> z1, z2 |-> z2, x |-> x]\n"
+            % ("{0, 1, -2}" if big else "{1, -2}", shapes_i)),
         "krige": (
-            "MB == {-1, 0, 2}\n"
+            "MB == {-1, 0, 2}\nVB == %s\n"
             "Box == \\E s \\in {<<1, 1>>, <<1, 2>>, <<2, 1>>} : LET n == s[1] m == s[2] IN\n"
-            "         \\E mat \\in [1..n -> [1..n -> MB]], vecs \\in [1..n -> [1..m -> MB]], cond \\in [1..n -> MB] :\n"
-            "         inp = [kind |-> \"krige\", m |-> m, mat |-> mat, vecs |-> vecs, cond |-> cond]\n"),
+            "         \\E mat \\in [1..n -> [1..n -> MB]], vecs \\in [1..n -> [1..m -> VB]], cond \\in [1..n -> VB] :\n"
+            "         inp = [kind |-> \"krige\", m |-> m, mat |-> mat, vecs |-> vecs, cond |-> cond]\n"
+            % ("{-1, 0, 2}" if big else "{-1, 2}")),
         "vario_u": (
-            "PB == {0, 1, 3}\nFB == {0, 1, -2}\n"
+            "PB == {0, 1, 3}\nFB == %s\n"
             "Box == \\E np \\in 2..3 : \\E pos \\in [1..np -> [1..1 -> PB]], f \\in [1..1 -> [1..np -> FB]] :\n"
             "         \\E edges \\in {<<0, 1, 2>>, <<1, 3>>, <<0, 2, 3, 4>>} :\n"
-            "         inp = [kind |-> \"vario_u\", d |-> 1, pos |-> pos, f |-> f, edges |-> edges]\n"),
+            "         inp = [kind |-> \"vario_u\", d |-> 1, pos |-> pos, f |-> f, edges |-> edges]\n"
+            % ("{0, 1, -2}" if big else "{1, -2}")),
         "vario_s": (
             "FB == {0, 1, -2}\n"
             "Box == \\E s \\in {<<2, 1>>, <<3, 1>>, <<2, 2>>, <<3, 2>>} : \\E f \\in [1..s[1] -> [1..s[2] -> FB]] :\n"
@@ -184,7 +204,7 @@ def _boxes(tier):
 
 def mc_module(name, kind, cases, box, projdef):
     txt = "---- MODULE %s ----\nEXTENDS Kernels\n" % name
-    txt += "McCases == <<\n  " + ",\n  ".join(tlaval.to_tla(c) for c in cases) + "\n>>\n"
+    txt += "McCases == <<\n  " + ",\n  ".join(tlaval.to_tla(dict(c, tag="seeded")) for c in cases) + "\n>>\n"
     txt += projdef + box
     txt += "McInit == (CaseInit \\/ Box) /\\ out = Result(inp)\n====\n"
     cfg = "CONSTANTS\n Cases <- McCases\n ProjSrc <- McProjSrc\nINIT McInit\nNEXT Next\n"
@@ -318,7 +338,11 @@ _W = {}
 def _worker_init(omp_paths):
     import importlib
 
+    # idle OpenMP threads must sleep, not spin: many workers x 16 threads share the machine
+    os.environ["OMP_WAIT_POLICY"] = "passive"
+    os.environ["GOMP_SPINCOUNT"] = "0"
     root = src_root()
+    _W["threads0"] = _threads_now()
     _W["interp"] = [rewriter.Interpreted(os.path.join(root, rel)) for rel, _m in KERNEL_FILES]
     _W["compiled"] = [importlib.import_module(m) for _r, m in KERNEL_FILES]
     _W["omp"] = [artefact.load_standalone(p, m) if p else None for p, (_r, m) in zip(omp_paths, KERNEL_FILES)]
@@ -333,20 +357,31 @@ def _run(fn, args, kw=None):
         return None, "%s: %s" % (type(e).__name__, e)
 
 
-def run_impls(kernel, args, extra=(), with_interp=True, threads=THREADS, wrapper_threads=WRAPPER_THREADS):
-    """All implementations on one input.  -> dict impl -> (result, error)"""
-    fi = KERNELS[kernel][0]
-    a = tuple(args) + tuple(extra)
-    out = {"compiled": _run(getattr(_W["compiled"][fi], kernel), a)}
-    if with_interp:
-        fn = _W["interp"][fi].ns.get(kernel)
-        out["interp"] = _run(fn, a) if fn else (None, "the current .pyx defines no %s" % kernel)
-    for nt in wrapper_threads:
-        out["wrapper[%s]" % nt] = _run(_W["wrap"][kernel], a, {"num_threads": nt})
-    if _W["omp"][fi] is not None:
-        for nt in threads:
-            out["omp[%s]" % nt] = _run(getattr(_W["omp"][fi], kernel), a, {"num_threads": nt})
+def run_batch(calls, with_interp=True, threads=THREADS, wrapper_threads=WRAPPER_THREADS):
+    """All implementations on a batch of inputs; calls = [(kernel, args, extra)].
+    -> list of dict impl -> (result, error).  The OpenMP build is driven thread count by thread count
+    (resizing libgomp's thread team between calls is what costs time)."""
+    out = [dict() for _ in calls]
+    for o, (kernel, args, extra) in zip(out, calls):
+        fi = KERNELS[kernel][0]
+        a = tuple(args) + tuple(extra)
+        o["compiled"] = _run(getattr(_W["compiled"][fi], kernel), a)
+        if with_interp:
+            fn = _W["interp"][fi].ns.get(kernel)
+            o["interp"] = _run(fn, a) if fn else (None, "the current .pyx defines no %s" % kernel)
+        for nt in wrapper_threads:
+            o["wrapper[%s]" % nt] = _run(_W["wrap"][kernel], a, {"num_threads": nt})
+    for nt in threads:
+        for o, (kernel, args, extra) in zip(out, calls):
+            fi = KERNELS[kernel][0]
+            if _W["omp"][fi] is not None:
+                o["omp[%s]" % nt] = _run(getattr(_W["omp"][fi], kernel), tuple(args) + tuple(extra), {"num_threads": nt})
+    _W["threads_max"] = max(_W.get("threads_max", 0), _threads_now() - _W.get("threads0", 0))
     return out
+
+
+def run_impls(kernel, args, extra=(), **kw):
+    return run_batch([(kernel, args, extra)], **kw)[0]
 
 
 def judge(kernel, res, expected, tol_exp, sink, replay, have_ref=True):
@@ -414,27 +449,48 @@ def _replay_args(args):
     return [np.asarray(a).tolist() if isinstance(a, np.ndarray) else a for a in args]
 
 
-def _task_lattice(states):
-    """states: list of (index, inp, out).  Replays each through every implementation."""
+def _task_lattice(job):
+    """job: list of (index, raw state text).  Parses the dumped TLC states and replays each
+    through every implementation; the full sweep over thread counts is done for the seeded cases and for
+    every 8th state of the boxes, the other box states use num_threads None and 3."""
+    blocks = job
     viol, n, nontriv, samples = [], 0, set(), []
 
     def sink(key, what, rp):
         if not any(k == key for k, _w, _r in viol):
             viol.append((key, what, rp))
 
+    states = []
+    for idx, text in blocks:
+        st = tlaval.parse_state(text)
+        states.append((idx, st["inp"], st["out"]))
+    out = {"viol": viol, "nontrivial": nontriv, "samples": samples}
+    full = [s for s in states if "tag" in s[1] or s[0] % 8 == 0]
+    part = [s for s in states if not ("tag" in s[1] or s[0] % 8 == 0)]
+    for group, threads in ((full, THREADS), (part, (None, 3))):
+        n += _lattice_group(group, threads, sink, nontriv, samples)
+    out["n"] = n
+    out["threads_seen"] = _W.get("threads_max", 0)
+    return out
+
+
+def _lattice_group(states, threads, sink, nontriv, samples):
+    n = 0
+    calls, meta = [], []
     for idx, inp, out in states:
         for kernel, args, exp_of in case_calls(inp, flip=bool(idx % 2)):
-            expected = exp_of(out)
-            res = run_impls(kernel, args)
-            judge(kernel, res, expected, 1e-9, sink,
-                  {"kind": "lattice", "kernel": kernel, "spec_input": inp, "spec_output": out, "args": _replay_args(args)})
-            n += 1
-            if nontrivial(expected):
-                nontriv.add(hash((kernel, tlaval.freeze(inp))))
-            if len(samples) < 1 and nontrivial(expected) and idx % 7 == 0:
-                samples.append({"kernel": kernel, "spec_input": inp, "tlc_expected": out,
-                                "compiled": _lst(res["compiled"][0]) if res["compiled"][0] is not None else None})
-    return {"viol": viol, "n": n, "nontrivial": nontriv, "samples": samples}
+            calls.append((kernel, args, ()))
+            meta.append((idx, inp, out, exp_of(out)))
+    for (kernel, args, _e), (idx, inp, out, expected), res in zip(calls, meta, run_batch(calls, threads=threads)):
+        judge(kernel, res, expected, 1e-9, sink,
+              {"kind": "lattice", "kernel": kernel, "spec_input": inp, "spec_output": out, "args": _replay_args(args)})
+        n += 1
+        if nontrivial(expected):
+            nontriv.add(hash((kernel, tlaval.freeze(inp))))
+        if len(samples) < 1 and nontrivial(expected) and idx % 7 == 0:
+            samples.append({"kernel": kernel, "spec_input": inp, "tlc_expected": out,
+                            "compiled": _lst(res["compiled"][0]) if res["compiled"][0] is not None else None})
+    return n
 
 
 # ---------------------------------------------------------------------------
@@ -451,6 +507,9 @@ def random_specs(rng, tier):
             for (n, m) in ((1, 1), (5, 17), (32, 257), (16, 3000 if d == 3 else 1200)):
                 for k in ("summate", "summate_fourier", "summate_incompr"):
                     out.append((k, rng.randrange(2**31), dict(d=d, n=n, m=m), True))
+        for k in ("summate", "summate_fourier", "summate_incompr", "calc_field_krige_and_variance"):
+            for sp in ("nan", "inf", "zero-mode"):
+                out.append((k, rng.randrange(2**31), dict(d=rng.choice([2, 3]), n=4, m=9, special=sp), True))
         for (n, m) in ((1, 1), (2, 5), (7, 64), (23, 1500), (40, 4000)):
             for k in ("calc_field_krige", "calc_field_krige_and_variance"):
                 out.append((k, rng.randrange(2**31), dict(n=n, m=m), True))
@@ -468,11 +527,11 @@ def random_specs(rng, tier):
                 out.append(("structured", rng.randrange(2**31), dict(r=r, c=c, est=est), True))
                 out.append(("ma_structured", rng.randrange(2**31), dict(r=r, c=c, est=est), True))
         # large inputs: thread counts (bitwise) and serial-vs-OpenMP only, no interpretation
-        out.append(("unstructured", rng.randrange(2**31), dict(d=2, npts=2500, est="m", dist="e", nan=True), False))
-        out.append(("unstructured", rng.randrange(2**31), dict(d=3, npts=1500, est="c", dist="e", nan=True), False))
+        out.append(("unstructured", rng.randrange(2**31), dict(d=2, npts=1200, est="m", dist="e", nan=True), False))
+        out.append(("unstructured", rng.randrange(2**31), dict(d=3, npts=700, est="c", dist="e", nan=True), False))
         out.append(("directional", rng.randrange(2**31), dict(d=2, npts=1200, est="m", nan=True, bw=0.8, sep=True), False))
-        out.append(("structured", rng.randrange(2**31), dict(r=600, c=400, est="m"), False))
-        out.append(("ma_structured", rng.randrange(2**31), dict(r=500, c=300, est="c"), False))
+        out.append(("structured", rng.randrange(2**31), dict(r=90, c=40, est="m"), False))
+        out.append(("ma_structured", rng.randrange(2**31), dict(r=70, c=50, est="c"), False))
         out.append(("summate", rng.randrange(2**31), dict(d=3, n=200, m=5000), False))
         out.append(("summate_fourier", rng.randrange(2**31), dict(d=2, n=150, m=4000), False))
         out.append(("calc_field_krige_and_variance", rng.randrange(2**31), dict(n=120, m=3000), False))
@@ -485,11 +544,26 @@ def random_args(kernel, seed, p):
         cov = g.normal(size=(p["d"], p["n"])) * 2
         z1, z2 = g.normal(size=p["n"]), g.normal(size=p["n"])
         pos = g.uniform(-20, 20, size=(p["d"], p["m"]))
+        sp = p.get("special")
+        if sp == "nan":
+            z1[0] = np.nan
+            pos[0, 1] = np.nan
+        elif sp == "inf":
+            pos[0, 0] = np.inf
+            z2[1] = -np.inf
+        elif sp == "zero-mode":
+            cov[:, 0] = 0.0  # |k| = 0: the projector divides 0 by 0 (NaN in C)
         if kernel == "summate_fourier":
             return (g.uniform(0, 2, size=p["n"]), cov, z1, z2, pos), ()
         return (cov, z1, z2, pos), ()
     if kernel.startswith("calc_field"):
-        return (g.normal(size=(p["n"], p["n"])), g.normal(size=(p["n"], p["m"])), g.normal(size=p["n"])), ()
+        mat, vecs, cond = g.normal(size=(p["n"], p["n"])), g.normal(size=(p["n"], p["m"])), g.normal(size=p["n"])
+        if p.get("special") == "nan":
+            mat[0, 0] = np.nan
+        elif p.get("special") == "inf":
+            vecs[0, 0] = np.inf
+            cond[1] = -np.inf
+        return (mat, vecs, cond), ()
     if kernel in ("unstructured", "directional"):
         npts, d = p["npts"], p["d"]
         if p.get("dist") == "h":
@@ -537,7 +611,7 @@ def _task_random(spec):
     return {"viol": viol, "n": 1, "nontrivial": {hash((kernel, seed))} if nz else set(),
             "samples": [{"kernel": kernel, "seed": seed, "params": p, "interpreted_reference": with_interp,
                          "implementations": sorted(res), "result_head": _short(comp) if comp is not None else None}],
-            "wall": time.time() - t0, "threads_seen": _threads_now()}
+            "wall": time.time() - t0, "threads_seen": _W.get("threads_max", 0)}
 
 
 def _threads_now():
@@ -624,7 +698,7 @@ def kernel_jobs(sc, kinds, cases, tier, projdef):
     return jobs
 
 
-def omp_jobs(sc, setup, rep, threads=3):
+def omp_jobs(sc, setup, rep, tier="quick", threads=3):
     """Extract the regions of the current .pyx, emit Omp_<kernel>, return TLC jobs + IR summaries."""
     jobs, regs_all = [], {}
     for fi, (rel, _m) in enumerate(KERNEL_FILES):
@@ -635,47 +709,57 @@ def omp_jobs(sc, setup, rep, threads=3):
                           "the parallel region of %s in the current %s is outside the modelled subset (%s): its schedule "
                           "independence cannot be established" % (fn, rel, why), {"function": fn, "reason": why})
         for fn in irmod.serial_kernels(I.rw):
-            rep.extra.setdefault("serial_kernels", []).append(fn)
+            rep.extra.setdefault("serial_kernels_without_parallel_region", []).append(fn)
         for fn, reg in regs.items():
             regs_all[fn] = (fi, reg)
-            margs = MODEL_ARGS.get(fn)
-            if margs is None:
-                margs = lambda fn=fn, I=I: {a: (Z((2,) * I.rw.decls[fn][a].count(":")) if "[" in I.rw.decls[fn].get(a, "") else None)
-                                            for a in I.rw.args[fn]}
-            try:
-                env = emitmod.model_env(I, reg, margs())
-                mod, cfg, info = emitmod.emit(reg, env, "Omp_" + fn)
-            except (emitmod.EmitError, Exception) as e:  # noqa: BLE001
-                rep.violation("%s:omp-model:unsupported" % fn,
-                              "no schedule model could be generated for the parallel region of %s (%r)" % (fn, e),
-                              {"function": fn, "reason": repr(e)})
-                continue
-            sc.write("Omp_%s.tla" % fn, mod)
-            cfgt = cfg % threads + "".join("INVARIANT %s\n" % i for i in emitmod.INVARIANTS)
-            jobs.append((("omp", fn), sc, "Omp_" + fn, cfgt, dict(workers=2, timeout=900)))
-            rep.extra.setdefault("omp_models", {})[fn] = dict(reg.summary(), shapes=info["shapes"], threads=threads)
+            variants = [("", MODEL_ARGS.get(fn))] + ([("_L", MODEL_ARGS_BIG.get(fn))] if tier == "thorough" and fn in MODEL_ARGS_BIG else [])
+            for suffix, margs in variants:
+                if margs is None:  # a kernel this driver does not know: every extent 2
+                    margs = lambda fn=fn, I=I: {a: Z((2,) * I.rw.decls[fn][a].count(":")) for a in I.rw.args[fn]
+                                                if "[" in I.rw.decls[fn].get(a, "")}
+                module = "Omp_%s%s" % (fn, suffix)
+                try:
+                    env = emitmod.model_env(I, reg, margs())
+                    mod, cfg, info = emitmod.emit(reg, env, module)
+                except Exception as e:  # noqa: BLE001  (EmitError, or the prelude of a changed source fails)
+                    rep.violation("%s:omp-model:unsupported" % fn,
+                                  "no schedule model could be generated for the parallel region of %s (%r)" % (fn, e),
+                                  {"function": fn, "reason": repr(e)})
+                    continue
+                sc.write(module + ".tla", mod)
+                cfgt = cfg % threads + "".join("INVARIANT %s\n" % i for i in emitmod.INVARIANTS)
+                jobs.append((("omp", fn, suffix), sc, module, cfgt, dict(workers=2 if not suffix else 3, timeout=1500)))
+                rep.extra.setdefault("omp_models", {})[fn + suffix] = dict(reg.summary(), shapes=info["shapes"], threads=threads)
     return jobs, regs_all
 
 
 def omp_verdicts(rep, sc, results, regs_all):
-    for (kind, fn), r in sorted(results.items()):
-        if kind != "omp":
+    for key, r in sorted(results.items()):
+        if key[0] != "omp":
             continue
-        tlc.must_pass(r, "Omp_" + fn)
-        rep.add_tlc("Omp_%s[T=3]" % fn, r)
+        _k, fn, suffix = key
+        module = "Omp_%s%s" % (fn, suffix)
+        tlc.must_pass(r, module)
+        rep.add_tlc("%s[T=3]" % module, r)
         if r.error:
             # which of the invariants fail (one TLC run per invariant, they stop at the first violation)
-            bad = []
+            bad = [r.error[1]]
             cfg0 = ("CONSTANTS\n T = 3\n Program <- McProgram\n PrivProgram <- McPrivProgram\n WsPriv <- McWsPriv\n"
                     "INIT Init\nNEXT Next\n")
             for inv in emitmod.INVARIANTS:
-                r2 = tlc.run(sc, "Omp_" + fn, cfg0 + "INVARIANT %s\n" % inv, workers=2, timeout=900)
-                if r2.error:
+                if inv in bad or inv == "PrivatesInitialised":  # constant: it would have been reported first
+                    continue
+                try:  # the state space of a racy program can be large: bounded effort, undetermined otherwise
+                    r2 = tlc.run(sc, module, cfg0 + "INVARIANT %s\n" % inv, workers=2, timeout=40)
+                except tlc.MachineryError:
+                    continue
+                if r2.error and r2.error[0] == "invariant":
                     bad.append(inv)
+            bad = [i for i in emitmod.INVARIANTS if i in bad]
             trace = tlc.error_trace(r)
             rep.violation("%s:schedule:%s" % (fn, "+".join(bad) or r.error[1]),
                           "the parallel region of %s in the current .pyx is schedule dependent: TLC finds %s violated for 3 "
-                          "threads (model extracted from the source at check time)" % (fn, ", ".join(bad) or r.error[1]),
+                          "threads (model %s extracted from the source at check time)" % (fn, ", ".join(bad) or r.error[1], module),
                           {"function": fn, "violated": bad, "ir": regs_all[fn][1].summary(),
                            "trace_tail": [{"action": t["action"], "th": t["state"].get("th"), "acc": t["state"].get("acc")} for t in trace[-3:]]})
 
@@ -702,9 +786,18 @@ def drift_checks(rep, setup, regs_all):
                 rep.drift_msg("PRAGMA %s: generated C has an OpenMP region for %s, the current .pyx has no prange there" % (rel, fn))
 
 
-def read_states(sc, kind):
-    sts = tlc.read_state_dump(sc.path("MC_K_%s.dump" % kind))
-    return [(s["inp"], s["out"]) for s in sts]
+def read_blocks(sc, kind):
+    """Raw text of the dumped states (parsed inside the workers)."""
+    import re
+
+    with open(sc.path("MC_K_%s.dump" % kind)) as fh:
+        text = fh.read()
+    return [b for b in re.split(r"(?m)^State \d+:\n", text) if b.strip()]
+
+
+def lattice_tasks(sc, kind):
+    blocks = list(enumerate(read_blocks(sc, kind)))
+    return len(blocks), [(_task_lattice, ch) for ch in chunks(blocks, max(1, min(NPROC * 2, len(blocks) // 150 + 1)))]
 
 
 def replay_pool(rep, setup, tasks):
@@ -823,6 +916,10 @@ def callers_check(rep, seed, interp0):
         except AttributeError as e:
             rep.note("generator internals renamed (%s): generator-vs-kernel relation not checked" % e)
             break
+        except (IndexError, ValueError, ZeroDivisionError, TypeError) as e:
+            # the interpreted source fails on a valid input: already a violation of the kernel comparison
+            rep.note("generator-vs-kernel relation not evaluated in dim %d: the interpreted kernel raised %r" % (d, e))
+            continue
         rep.count(1)
         rep.traces += 1
         if not ok:
@@ -1031,7 +1128,7 @@ def _run_c15(rep, rng, tier, seed, setup, sc):
     projdef, _ok = projector_def(setup, rep)
     kinds = ["summate", "fourier", "incompr", "krige", "vario_u", "vario_s"]
     jobs = kernel_jobs(sc, kinds, cases, tier, projdef)
-    ojobs, regs_all = omp_jobs(sc, setup, rep)
+    ojobs, regs_all = omp_jobs(sc, setup, rep, tier)
     t0 = time.time()
     results = tlc.run_many(jobs + ojobs, parallel=NTLC)
     print("TLC: %d jobs in %.1fs" % (len(jobs) + len(ojobs), time.time() - t0))
@@ -1047,11 +1144,9 @@ def _run_c15(rep, rng, tier, seed, setup, sc):
     tasks = []
     nstates = 0
     for kind in kinds:
-        sts = read_states(sc, kind)
-        nstates += len(sts)
-        idx = [(i, a, b) for i, (a, b) in enumerate(sts)]
-        for ch in chunks(idx, max(1, min(NPROC * 2, len(idx) // 200 + 1))):
-            tasks.append((_task_lattice, ch))
+        cnt, tk = lattice_tasks(sc, kind)
+        nstates += cnt
+        tasks += tk
     rspecs = random_specs(rng, tier)
     # the slow ones first
     tasks = [(_task_random, s) for s in rspecs if not s[3]] + [(_task_random, s) for s in rspecs if s[3]] + tasks
@@ -1062,9 +1157,9 @@ def _run_c15(rep, rng, tier, seed, setup, sc):
     rep.extra["random_float_inputs"] = len(rspecs)
     rep.extra["openmp_build"] = {rel: ("built" if p else "not available") for (rel, _m), p in zip(KERNEL_FILES, setup.builds(rep))}
     rep.extra["openmp_thread_counts"] = [str(t) for t in THREADS]
-    rep.extra["max_os_threads_seen_in_a_worker"] = stats["threads_seen"]
-    if any(setup.builds(rep)) and stats["threads_seen"] < 8:
-        rep.note("the OpenMP runtime never had 8 OS threads in one worker (%d seen): thread counts may be capped" % stats["threads_seen"])
+    rep.extra["max_additional_os_threads_in_a_worker"] = stats["threads_seen"]
+    if any(setup.builds(rep)) and stats["threads_seen"] < 15:
+        rep.note("the OpenMP runtime never had 15 additional OS threads in one worker (%d seen): thread counts may be capped" % stats["threads_seen"])
     callers_check(rep, seed, setup.interp[0])
     return rep.finish(
         level="model_checking",
@@ -1094,11 +1189,13 @@ def _run_c16(rep, rng, tier, seed, setup, sc):
         rep.add_tlc("Kernels[%s]" % kind, r)
         if r.error:
             if r.error[0] == "invariant" and r.error[1].startswith("Extracted"):
-                st = tlc.error_trace(r)
+                import re
+                m = re.search(r"(?s)violated by the initial state:\n(.*?)\n\s*\n", r.stdout)
+                st = tlaval.parse_state(m.group(1)) if m else {}
                 rep.violation("projector:source:%s" % r.error[1],
-                              "the projector expression of the current summator.pyx violates %s in TLC (exact rationals) at %s"
-                              % (r.error[1], st[-1]["state"].get("inp") if st else "?"),
-                              {"kind": "tlc", "invariant": r.error[1], "state": st[-1]["state"] if st else None,
+                              "the projector expression of the current summator.pyx violates %s in TLC (exact rationals) at k = (pi/2)*%s"
+                              % (r.error[1], st.get("inp", {}).get("kv", "?")),
+                              {"kind": "tlc", "invariant": r.error[1], "state": st,
                                "projector": rep.extra.get("projector_extracted_from_source")})
             elif r.error[0] == "invariant":
                 rep.violation("design:%s" % r.error[1], "the documented projector violates %s" % r.error[1],
@@ -1114,10 +1211,7 @@ def _run_c16(rep, rng, tier, seed, setup, sc):
             r2 = tlc.must_pass(tlc.run(sc, "MC_K2_" + kind, cfg, workers=2, timeout=900,
                                        dump=("states", sc.path("MC_K_%s.dump" % kind))), "Kernels " + kind)
             rep.add_tlc("Kernels[%s, documented projector]" % kind, r2)
-        sts = read_states(sc, kind)
-        idx = [(i, a, b) for i, (a, b) in enumerate(sts)]
-        for ch in chunks(idx, max(1, min(NPROC, len(idx) // 200 + 1))):
-            tasks.append((_task_lattice, ch))
+        tasks += lattice_tasks(sc, kind)[1]
     nprobe = 40 if tier == "quick" else 400
     for _ in range(NPROC):
         tasks.append((_task_probe, (rng.randrange(2**31), nprobe)))
@@ -1125,7 +1219,7 @@ def _run_c16(rep, rng, tier, seed, setup, sc):
     fjobs = []
     for name in names:
         for dim in (2, 3):
-            for _ in range(1 if tier == "quick" else 6):
+            for _ in range(2 if tier == "quick" else 6):
                 fjobs.append((name, dim, rng.randrange(1, 2**31 - 1), rng.choice([1, 2, 7, 16]) if tier == "quick" else rng.choice([1, 2, 3, 7, 16, 50])))
     tasks = [(_task_fields, j) for j in fjobs] + tasks
     t0 = time.time()
